@@ -357,7 +357,7 @@ def loop_counts_exact(ctx, spec, rule='L1', only=None, floor=10):
                 seen.add(it[2])
                 n += 1
                 cnt = q.expand(it[2], fx, 3, noinl(fx))        # see through crate-local helpers that merely hand the field on
-                calls = sorted({x[1] for x in walk(cnt) if isinstance(x, tuple) and x[0] == 'call' and not x[1].startswith(LOOP_CALLS_OK)})
+                calls = sorted(x for x in schedule.calls_outside_reads(cnt) if not x.startswith(LOOP_CALLS_OK))
                 allowed = LOOP_CONSTS.get(fn, (set(), ''))[0] | {0, 1}
                 consts = sorted(set(schedule.consts_in(cnt)) - allowed)
                 ok = not calls and not consts
